@@ -251,3 +251,15 @@ def field_writes(body, blocks, base_locals):
             if fs:
                 out.append((fs[0], bb))
     return out
+
+
+def transformed_compares(body, compares=None):
+    """{literal: [calls]} for literal comparisons whose other operand is not the received value itself but the result of a
+    transforming call (to_ascii_lowercase, trim, replace, ...); views and ownership changes are transparent."""
+    from . import terms
+    out = {}
+    for c in (compares if compares is not None else str_compares(body, branchless=True)):
+        leaf, tr = terms.raw_source(body, c["other"])
+        if tr:
+            out[c["lit"]] = tr
+    return out
